@@ -3,6 +3,7 @@
    plus everything the probe template harness/probes/c14_dump.templ printed, with every
    Go text replaced by the canonical S-expression of harness/go/gotype.  [dump] produces
    the same list from the model; the S-expression printers below mirror gotype's. *)
+From Coq Require Export NArith.
 From Mk Require Import Lib.Bytes Lib.Dec Gen.Alloc Gen.Types Gen.Render.
 
 (* short constructors used by the generated case files *)
@@ -101,8 +102,13 @@ Record case := {
   c_names : list (str * str);
   c_lower : list (str * str); c_upper : list (str * str);
   c_ifaces : list iface;
-  c_obs : list str
+  c_obs : list N        (* digests of the observed dump entries (parsing ~20 KB of string literals per
+                           case would dominate the run time; the full texts are compared on a mismatch) *)
 }.
+
+(* djb2, 32 bit; the harness computes the same function on the observed entries *)
+Definition digest (s : str) : N :=
+  fold_left (fun h b => N.land (h * 33 + Byte.to_N b) 4294967295) s 5381%N.
 
 Definition case_ctx (c : case) : ctx :=
   {| cx_names := c_names c; cx_lower := c_lower c; cx_upper := c_upper c; cx_exported := exported_ascii |}.
@@ -145,7 +151,7 @@ Section Dump.
 
   Definition dump_iface (i : idata) : list str :=
     [B "I"; i_name i; i_struct i; sx_tparams (type_constraint cx i); sx_targs (type_instantiation cx i)] ++
-    concat (map (fun v => [B "TP"; vname v; sx (vrty v); sx_params [param_method_arg v false]]) (i_tparams i)) ++
+    concat (map (fun v => [B "TP"; vname v; sx (vrty v); sx_tparams [(vname v, vrty v)]]) (i_tparams i)) ++
     concat (map dump_method (i_methods i)).
 
   Definition dump : list str :=
@@ -157,15 +163,15 @@ End Dump.
 Definition model_dump (c : case) : list str :=
   dump (case_ctx c) (gen_file (case_ctx c) (c_dst c) (c_inpkg c) (c_ifaces c)).
 
-Fixpoint first_diff (k : nat) (a b : list str) : option nat :=
+Fixpoint first_diff (k : nat) (a b : list N) : option nat :=
   match a, b with
   | [], [] => None
-  | x :: a', y :: b' => if seqb x y then first_diff (S k) a' b' else Some k
+  | x :: a', y :: b' => if N.eqb x y then first_diff (S k) a' b' else Some k
   | _, _ => Some k
   end.
 
 Definition check_case (c : case) : bool :=
-  match first_diff 0 (model_dump c) (c_obs c) with None => true | Some _ => false end.
+  match first_diff 0 (map digest (model_dump c)) (c_obs c) with None => true | Some _ => false end.
 
 Fixpoint mismatches_from (i : nat) (cs : list case) : list nat :=
   match cs with
